@@ -1,6 +1,11 @@
 import Model.Engine.Base
 /-! Component `Floor` (C02): account locks held from before the balances are read until the log is persisted, so that
-at its position in the log every accepted transaction's sources hold what the script was run against. -/
+at its position in the log every accepted transaction's sources hold what the script was run against.
+
+Two clauses exist for the invariant (`Lemmas/EngineFloor.lean`, J7 (c) "a recorded read of a write-locked account is
+current for durable ++ pending"): a request does not read balances while its own log is still queued (the store would
+answer without it), and a commit consumes the committer's recorded reads (they are stale once its own postings are in
+the log; a further commit needs fresh ones). -/
 namespace Engine.Floor
 open Engine
 
@@ -68,6 +73,7 @@ def step (grant : Nat → Option Int) (s : S) : Ev → Except String S
       .ok { s with holders := r.1, queue := r.2, reads := s.reads.filter (·.1 ≠ a) }
   | .balRead a x asset v =>
     if x = "world" then .ok s else
+    if s.pending.any (·.by_ = a) then .error "floor: balance read while the request's own log is not yet persisted" else
     match holdOf s a with
     | none => .error "floor: balance read without holding the account locks"
     | some h =>
@@ -84,7 +90,7 @@ def step (grant : Nat → Option Int) (s : S) : Ev → Except String S
       then .error "floor: a source whose balance was not read"
       else if !floorOk (grant a) (fun x asset => (readOf s a x asset).getD 0) l.postings
       then .error "floor: the postings overdraw the balances the script was run against"
-      else .ok { s with pending := s.pending ++ [⟨l, a⟩] }
+      else .ok { s with pending := s.pending ++ [⟨l, a⟩], reads := s.reads.filter (·.1 ≠ a) }   -- the reads are consumed: a further commit needs fresh ones
   | .gate n ok =>
     if n = 0 ∨ n > s.pending.length then .error "floor: batch larger than what is pending"
     else if ok then .ok { s with durable := s.durable ++ s.pending.take n, pending := s.pending.drop n }
